@@ -219,7 +219,19 @@ def _run_point(case, ctx):
         spec["branch"] = [r.randint(0, 1) for _ in range(n)]
     if case.get("textcol"):
         spec["extra"]["step"] = [r.choice(["ads", "des", "equil", "x y", "ünï"]) for _ in range(n)]
+        if case["seed"] % 2 == 0:
+            # labels that happen to read as numbers (zero-padded vial numbers, cycle ids): text stays text
+            spec["extra"]["vial"] = [r.choice(["001", "002", "010", "1e3", "3.50", "7"]) for _ in range(n)]
+    if case["seed"] % 4 == 1 and not spec["extra"]:
+        # whole-number readings delivered as integers (an integer column is a data column like any other: same numbers, same type,
+        # same document when exported again)
+        spec["pressure"] = [int(round(x * 1000)) + i for i, x in enumerate(spec["pressure"])]
+        spec["loading"] = [int(round(x * 100)) + i for i, x in enumerate(spec["loading"])]
+        ctx.count("point_data", "integer-typed pressure and loading")
+        spec["_ints"] = True
     route = r.choice(["df", "df_offset", "df_cols", "df_branchcol"]) if spec["extra"] else r.choice(["lists", "ndarray", "df", "df_perm"])
+    if spec.pop("_ints", False) and route == "ndarray":
+        route = "lists"  # (the ndarray route of the generator casts to float)
     try:
         iso = gen.build_point(spec, route, branch="guess" if mode == "guess" else "explicit")
     except Exception as exc:
@@ -279,6 +291,8 @@ def _run_point(case, ctx):
                 ok = False
             if not ok:
                 ctx.violation("point/data-column-differs", "a data column differs after the round trip", col=c, a=x[:6], b=y[:6])
+            elif a[c].dtype.kind != b[ren.get(c, c)].dtype.kind and converted is None:
+                ctx.violation("point/data-column-type-differs", "a data column changes its number type in the round trip (integers <-> floats)", col=c, a=str(a[c].dtype), b=str(b[ren.get(c, c)].dtype), route=route)
         if list(map(str, cols_a)) != list(map(str, b.columns)):
             ctx.count("tabulated_only", "column order differs after round trip")
 
